@@ -2,6 +2,7 @@ package sim
 
 import (
 	"fmt"
+	"os"
 
 	"pgregory.net/rapid"
 )
@@ -19,6 +20,10 @@ type Bias struct {
 	NoInitialRelease bool
 	LargeReplicas    bool
 	SettlePct        int // share (percent) of "settle" actions: run controllers + environment until they wait
+	// CancelBursts: share (percent) of bursts [settle, approve, k reconciles, rollback|release]: a
+	// template change placed right behind a step transition
+	CancelBursts int
+	Faults       bool // inject API errors / crashes (one armed at a time, "the N-th call from now")
 }
 
 // FindingGatewayDisableCanarySvc: Gateway API provider with disableGenerateCanaryService: true.
@@ -90,6 +95,8 @@ func GenScenario(t *rapid.T, b Bias) Scenario {
 			v := rapid.IntRange(lo, 100).Draw(t, "step-pct")
 			if last && rapid.IntRange(0, 2).Draw(t, "last-100") > 0 {
 				v = 100
+			} else if rapid.IntRange(0, 7).Draw(t, "early-100") == 0 {
+				v = 100 // a full-size step before the last one
 			}
 			prev = v
 			st.Replicas = fmt.Sprintf("%d%%", v)
@@ -177,6 +184,18 @@ func GenHistory(t *rapid.T, s Scenario, b Bias) []Action {
 			out = append(out, Action{Kind: "restart"})
 		case r >= 100-b.SettlePct:
 			out = append(out, Action{Kind: "settle"})
+		case r >= 100-b.SettlePct-b.CancelBursts:
+			out = append(out, Action{Kind: "settle"}, Action{Kind: "user", Arg: UserApprove})
+			for k := rapid.IntRange(0, 4).Draw(t, "burst-reconciles"); k > 0; k-- {
+				out = append(out, Action{Kind: "reconcile", I: rapid.IntRange(0, 3).Draw(t, "q-index")})
+			}
+			if rapid.Bool().Draw(t, "burst-rollback") {
+				out = append(out, Action{Kind: "user", Arg: UserRollback})
+			} else {
+				out = append(out, Action{Kind: "user", Arg: UserRelease, N: rapid.IntRange(0, 2).Draw(t, "version")})
+			}
+		case r >= 96-b.SettlePct-b.CancelBursts && b.Faults:
+			out = append(out, genFault(t))
 		default:
 			if len(pool) == 0 {
 				continue
@@ -198,9 +217,28 @@ func GenHistory(t *rapid.T, s Scenario, b Bias) []Action {
 				a.N = rapid.IntRange(0, 200).Draw(t, "edit")
 			}
 			out = append(out, a)
+			if b.Faults && (k == UserDelete || k == UserDisable || k == UserRollback) && rapid.IntRange(0, 2).Draw(t, "fault-after-exit") > 0 {
+				out = append(out, genFault(t))
+			}
 		}
 	}
 	return out
+}
+
+var faultKinds = []string{"error-before-call", "error-after-write", "crash-after-write", "conflict-before-write"}
+
+var faultTargets = []string{"Deployment/update", "Deployment/patch", "Deployment/delete", "CloneSet/patch", "CloneSet/update", "Service/patch", "Service/delete", "Service/create",
+	"Ingress/update", "Ingress/delete", "Ingress/create", "HTTPRoute/update", "BatchRelease/delete", "BatchRelease/patch", "BatchRelease/update", "BatchRelease/status", "Rollout/status", "Rollout/update", "Rollout/patch",
+	"Pod/patch", "Pod/list", "Deployment/list", "ReplicaSet/list", "PodList/list", "DeploymentList/list", "ReplicaSetList/list", "Deployment/get", "CloneSet/get", "BatchRelease/get", "Service/get"}
+
+func genFault(t *rapid.T) Action {
+	if ft := os.Getenv("VERIF_FAULT_TARGET"); ft != "" { // development aid
+		return Action{Kind: "fault", Arg: "error-on-target:" + ft, N: rapid.IntRange(1, 2).Draw(t, "fault-nth")}
+	}
+	if rapid.Bool().Draw(t, "fault-targeted") {
+		return Action{Kind: "fault", Arg: "error-on-target:" + rapid.SampledFrom(faultTargets).Draw(t, "fault-target"), N: rapid.IntRange(1, 3).Draw(t, "fault-nth")}
+	}
+	return Action{Kind: "fault", Arg: rapid.SampledFrom(faultKinds).Draw(t, "fault-kind"), N: rapid.IntRange(1, 30).Draw(t, "fault-at")}
 }
 
 // StepCoversAll: the step's planned replicas reach the whole workload of size n.
